@@ -184,10 +184,72 @@ fn headers(x: &X) -> X {
     }
 }
 
+/// `Http1Body` used as what it is to a handler that matches on `Body::Http1`: an `AsyncRead` (plus `read_to_bytes` and
+/// `drain`).  input: (L early content_length end_mode stream (L burst..) (L op..)), op = (N window): one
+/// `read(&mut buf[..window])` | (L (N limit)): `read_to_bytes(limit)` | (L): `drain()`.
+/// output: (L (L outcome..) consumed): one outcome per executed op (the first error ends the run), `consumed` = bytes
+/// taken from the connection (0 after an error).  A read that pends for ever is cut off after 60 ms and reported as TimedOut (as in `body_phase`).
+fn poll(x: &X) -> X {
+    use tokio::io::AsyncReadExt;
+    let l = match x.as_l() { Some(l) if l.len() == 6 => l, _ => return X::bad() };
+    let (early, cl, end_mode, stream, sched, ops) = match (l[0].as_b(), l[1].as_n(), l[2].as_n(), l[3].as_b(), sched_of(&l[4]), l[5].as_l()) {
+        (Some(a), Some(b), Some(c), Some(d), Some(e), Some(f)) => (a, b as usize, c as u8, d, e, f),
+        _ => return X::bad(),
+    };
+    let pos = Arc::new(AtomicUsize::new(0));
+    let reader = Scripted { data: stream.to_vec(), pos: Arc::clone(&pos), sched, end_mode };
+    let reader = Arc::new(tokio::sync::Mutex::new(reader));
+    let early = Bytes::copy_from_slice(early);
+    let ops = ops.to_vec();
+    runtime().block_on(async move {
+        let mut body = kvarn::application::Http1Body::new(reader, early, cl);
+        let mut outs = Vec::new();
+        let cut = Duration::from_millis(60);
+        for op in &ops {
+            let out = match op {
+                X::N(w) => {
+                    if *w > (1 << 20) {
+                        return X::bad();
+                    }
+                    let mut buf = vec![0_u8; *w as usize];
+                    match tokio::time::timeout(cut, body.read(&mut buf)).await {
+                        Err(_) => X::err(20),
+                        Ok(Err(e)) => X::err(io_class(&e)),
+                        Ok(Ok(n)) => X::ok(X::b(&buf[..n])),
+                    }
+                }
+                X::L(v) if v.is_empty() => match tokio::time::timeout(cut, body.drain()).await {
+                    Err(_) => X::err(20),
+                    Ok(Err(e)) => X::err(io_class(&e)),
+                    Ok(Ok(())) => X::ok(X::b(b"")),
+                },
+                X::L(v) => match v.as_slice() {
+                    [X::N(limit)] => match tokio::time::timeout(cut, body.read_to_bytes(*limit as usize)).await {
+                        Err(_) => X::err(20),
+                        Ok(Err(e)) => X::err(io_class(&e)),
+                        Ok(Ok(b)) => X::ok(X::b(&b)),
+                    },
+                    _ => return X::bad(),
+                },
+                X::B(_) => return X::bad(),
+            };
+            let failed = !matches!(out.as_l(), Some([X::N(0), _]));
+            outs.push(out);
+            if failed {
+                break;
+            }
+        }
+        // as in `request`: the bytes taken from the connection are reported when nothing failed
+        let ok = outs.iter().all(|o| matches!(o.as_l(), Some([X::N(0), _])));
+        X::L(vec![X::L(outs), X::n(if ok { pos.load(Ordering::Relaxed) } else { 0 })])
+    })
+}
+
 pub fn dispatch(comp: &str, x: &X) -> Option<X> {
     Some(match comp {
         "h1.request" => request(x),
         "h1.body" => body(x),
+        "h1.poll" => poll(x),
         "h1.headers" => headers(x),
         _ => return None,
     })
